@@ -91,6 +91,12 @@ class Binding:
         """values to force into the algorithm's random draws for action a"""
         return []
 
+    best_response = False       # every move must be a best response to the neighbours' values of the cycle (DSA, C06)
+    random_options = [0.0]      # outcomes of random.random() worth enumerating when the real graph is explored
+
+    def world(self, inst, consts, seed=1):
+        return World(inst, self.algo, self.params(consts, inst), seed=seed)
+
     def pairs(self, w):
         """MGM2: accepted coordinated pairs as [cycle, x, y]"""
         return []
@@ -126,14 +132,14 @@ def _replay_worker(args):
     """(binding, inst, consts, edges, props, label, max_paths, seed) -> plain data: paths, steps, divergences, departed records"""
     b, inst, consts, edges, props, label, max_paths, sd = args
     g = RP.Graph(edges)
-    w0 = World(inst, b.algo, b.params(consts, inst), seed=1)
+    w0 = b.world(inst, consts, 1)
     paths = g.cover(b.project(w0), max_len=80)
     if max_paths and len(paths) > max_paths:
         random.Random(sd).shuffle(paths)
         paths = paths[:max_paths]
     nsteps, divs, departed = 0, [], []
     for pi, path in enumerate(paths):
-        w = World(inst, b.algo, b.params(consts, inst), seed=pi + 1)
+        w = b.world(inst, consts, pi + 1)
         for k, (a, exp) in enumerate(path):
             why = None
             try:
@@ -187,12 +193,13 @@ def hist_record(b, w, inst, stop, rid, exc=""):
             "hist": {n: list(w.hist.get(n, [])) for n in vs}, "idle": {n: max(1, w.vidx(n, w.comps[n].current_value)) for n in vs},
             "val": {n: w.vidx(n, w.comps[n].current_value) for n in vs},
             "cyc": {n: int(getattr(w.comps[n], "cycle_count", 0) or 0) for n in vs}, "fin": {n: bool(w.fin[n]) for n in vs},
-            "quiet": bool(w.quiet()), "allstarted": all(w.started.values()), "exc": exc, "pairs": b.pairs(w)}
+            "quiet": bool(w.quiet()), "allstarted": all(w.started.values()), "exc": exc, "pairs": b.pairs(w), "bestresp": bool(b.best_response)}
 
 
 def explore_real(args):
     """the reachable graph of the REAL computations of one instance: breadth-first, by re-execution from the initial state,
-    all enabled steps x all outcomes of the random.choice() draws; state identity = the model's projection + the history.
+    all enabled steps x all outcomes of the random draws (choice, random() against a probability, numpy randint); state
+    identity = the model's projection + the history.
     -> (records of the distinct (history, end-flags) reached, number of states, number of re-executed steps, complete?)"""
     b, inst, consts, max_states, budget_s = args
     import time
@@ -200,11 +207,17 @@ def explore_real(args):
     t0 = time.time()
     stop = consts.get("StopCycle", 0)
 
+    def fresh():
+        w = instrument(b.world(inst, consts, 1))
+        w.rnd.explore = True
+        w.rnd.random_options = list(b.random_options)
+        return w
+
     def rerun(path):
-        w = instrument(World(inst, b.algo, b.params(consts, inst), seed=1))
+        w = fresh()
         for st, f in path:
             w.rnd.forced.clear()
-            w.rnd.forced.extend(("K", "choice", x) for x in f)
+            w.rnd.forced.extend(f)
             w.step(st)
         w.rnd.forced.clear()
         return w
@@ -216,7 +229,6 @@ def explore_real(args):
     recs = {}
     frontier = deque([[]])
     nsteps, complete = 0, True
-    idle0 = None
 
     def note(w, exc):
         r = hist_record(b, w, inst, stop, 0, exc)
@@ -233,23 +245,27 @@ def explore_real(args):
             variants, tried = [()], set()
             while variants:
                 f = variants.pop()
-                if f in tried:
+                if repr(f) in tried:
                     continue
-                tried.add(f)
                 w2 = rerun(path)
                 nsteps += len(path) + 1
-                w2.rnd.forced.extend(("K", "choice", x) for x in f)
-                w2.rnd.choices_seen = []
+                w2.rnd.forced.extend(f)
+                w2.rnd.draws_seen = []
                 nlog = len(w2.rnd.log)
                 ev = w2.step(st)
                 w2.rnd.forced.clear()
-                tv = taken_values(w2, nlog, f)
-                tried.add(tv)
-                for i in range(len(f), len(w2.rnd.choices_seen)):
-                    # alternatives at draw i, the earlier draws as in this execution
-                    for alt in w2.rnd.choices_seen[i]:
-                        if alt != tv[i]:
-                            variants.append(tuple(tv[:i]) + (alt,))
+                # the draws of this step as forcible entries, and the alternatives at every draw that was not forced
+                tv = []
+                for (kind, opts), (lk, lv) in zip(w2.rnd.draws_seen, [x for x in w2.rnd.log[nlog:] if x[0] in ("choice", "random", "np_randint")]):
+                    val = next((o for o in opts if (o if isinstance(o, (int, float, str, bool)) or o is None else repr(o)) == lv), lv)
+                    tv.append(("K", kind, val))
+                tv = tuple(tv)
+                tried.add(repr(tv))
+                tried.add(repr(f))
+                for i in range(len(f), len(tv)):
+                    for alt in w2.rnd.draws_seen[i][1]:
+                        if alt != tv[i][2]:
+                            variants.append(tv[:i] + (("K", tv[i][1], alt),))
                 exc = ev["exc"]
                 k2 = key(w2, exc)
                 if k2 in seen:
@@ -260,18 +276,6 @@ def explore_real(args):
                     frontier.append(path + [(st, tv)])
     out = list(recs.values())
     return out, len(seen), nsteps, complete
-
-
-def taken_values(w, nlog, f):
-    """the values the choice() draws of the last step returned, as forcible values"""
-    vals = []
-    j = 0
-    for kind, v in w.rnd.log[nlog:]:
-        if kind == "choice":
-            opts = w.rnd.choices_seen[j]
-            vals.append(next(o for o in opts if (o if isinstance(o, (int, float, str, bool)) or o is None else repr(o)) == v))
-            j += 1
-    return tuple(vals)
 
 
 def _batch_worker(args):
@@ -340,7 +344,7 @@ def run_model(v, b, insts, consts, invariants, clauses, props, edges_for=lambda 
         if info["violated"] or info["deadlock"]:
             what = info["violated"][0] if info["violated"] else "Deadlock"
             acts = info["acts"]
-            w = World(inst, b.algo, b.params(consts, inst), seed=1)
+            w = b.world(inst, consts, 1)
             ok = True
             for a in acts:
                 try:
